@@ -23,12 +23,19 @@ func wrapperFaithful(c *Ctx, id string) {
 		args  []string // origins of its arguments
 		ret   []string // origins of the results ("" = none)
 	}
+	// the wrapped map: the wrapper's only field (whatever it is called)
+	inner := "recv.m"
+	if wt := w.NamedType("wrapper", "ConcurrentSwissMap"); wt != nil {
+		if st, ok := wt.Underlying().(*types.Struct); ok && st.NumFields() == 1 {
+			inner = "recv." + st.Field(0).Name()
+		}
+	}
 	table := map[string]exp{
-		"Count":   {"Count", []string{"recv.m"}, []string{"$call"}},
-		"Delete":  {"Delete", []string{"recv.m", "param(key)"}, nil},
-		"Load":    {"Load", []string{"recv.m", "param(key)"}, []string{"$call#0", "$call#1"}},
-		"Store":   {"Store", []string{"recv.m", "param(key)", "param(value)"}, nil},
-		"StoreIf": {"SetIf", []string{"recv.m", "param(key)", "param(conditionFn)"}, nil},
+		"Count":   {"Count", []string{inner}, []string{"$call"}},
+		"Delete":  {"Delete", []string{inner, "param(key)"}, nil},
+		"Load":    {"Load", []string{inner, "param(key)"}, []string{"$call#0", "$call#1"}},
+		"Store":   {"Store", []string{inner, "param(key)", "param(value)"}, nil},
+		"StoreIf": {"SetIf", []string{inner, "param(key)", "param(conditionFn)"}, nil},
 	}
 	// one instantiation per method (all are the same source)
 	methods := map[string]*ssa.Function{}
@@ -133,7 +140,7 @@ func wrapperFaithful(c *Ctx, id string) {
 		cb := fn.AnonFuncs[0]
 		calls := innerCall(fn)
 		ok := len(fn.Blocks) == 1 && len(calls) == 1 && isWrappedMapMethod(calls[0].Common(), "Range") &&
-			w.Origin(calls[0].Common().Args[0]) == "recv.m" && closureOf(calls[0].Common().Args[1]) == cb
+			w.Origin(calls[0].Common().Args[0]) == inner && closureOf(calls[0].Common().Args[1]) == cb
 		why := "outer call"
 		if ok {
 			cbCalls := innerCall(cb)
@@ -259,6 +266,22 @@ func rangeComplete(scope ...string) func(c *Ctx, id string) {
 func rangeCompleteIn(c *Ctx, id string, scope []string) {
 	w := c.W
 	n := 0
+	// in scope: the named functions and the same-package helpers they call (a loop may have been moved into one)
+	scoped := map[*ssa.Function]bool{}
+	for _, fn := range w.ModFuncs {
+		for _, sc := range scope {
+			if strings.Contains(fname(rootFn(fn)), sc) {
+				scoped[rootFn(fn)] = true
+			}
+		}
+	}
+	for r := range scoped {
+		for g := range w.syncCallees(r, 2, false) {
+			if pkgOfFn(g) == pkgOfFn(r) {
+				scoped[g] = true
+			}
+		}
+	}
 	for _, fn := range w.ModFuncs {
 		if fn.Pkg != nil && strings.HasSuffix(fn.Pkg.Pkg.Path(), "/wrapper") {
 			continue
@@ -266,13 +289,7 @@ func rangeCompleteIn(c *Ctx, id string, scope []string) {
 		if fn.Signature.Recv() != nil && recvTypeName(fn.Signature.Recv().Type()) == "ConcurrentSwissMap" {
 			continue
 		}
-		inScope := false
-		for _, sc := range scope {
-			if strings.Contains(fname(rootFn(fn)), sc) {
-				inScope = true
-			}
-		}
-		if !inScope {
+		if !scoped[rootFn(fn)] {
 			continue
 		}
 		allInstrs(fn, func(in ssa.Instruction) {
